@@ -1,7 +1,7 @@
 //! C16 local-channel: FIFO, exactly once, clean closure, no lost wake-up.
 //!
 //! Enumerated: every operation sequence up to the depth bound over
-//! {send(i), clone(i), drop_sender(i), close(i), poll, sender_from_receiver, drop_receiver}
+//! {send(i), clone(i), drop_sender(i), close(i), poll, poll_b (a second task's waker), sender_from_receiver, drop_receiver}
 //! with at most 3 live senders, on the real `local_channel::mpsc` channel, each sequence
 //! re-executed from a fresh channel (no state merging).
 //! Oracle: a queue + flags reference; a parked receiver must have been woken (>= 1 wake) after
@@ -24,6 +24,8 @@ enum Op {
     DropS(usize),
     Close(usize),
     Poll,
+    /// poll from another task: a different waker
+    PollB,
     SenderFromReceiver,
     DropReceiver,
 }
@@ -35,6 +37,7 @@ fn op_json(o: &Op) -> Value {
         Op::DropS(i) => json!({"drop_sender": i}),
         Op::Close(i) => json!({"close": i}),
         Op::Poll => json!("poll"),
+        Op::PollB => json!("poll_b"),
         Op::SenderFromReceiver => json!("sender_from_receiver"),
         Op::DropReceiver => json!("drop_receiver"),
     }
@@ -43,6 +46,7 @@ fn op_json(o: &Op) -> Value {
 fn op_from(v: &Value) -> Op {
     match v.as_str() {
         Some("poll") => return Op::Poll,
+        Some("poll_b") => return Op::PollB,
         Some("sender_from_receiver") => return Op::SenderFromReceiver,
         Some("drop_receiver") => return Op::DropReceiver,
         _ => {}
@@ -63,6 +67,9 @@ struct Sys {
     senders: Vec<Sender<u32>>,
     receiver: Option<Receiver<u32>>,
     waker: std::sync::Arc<CountWaker>,
+    waker_b: std::sync::Arc<CountWaker>,
+    /// the waker of the most recent poll that returned Pending was the second one
+    parked_b: bool,
     next_msg: u32,
     // reference
     queue: VecDeque<u32>,
@@ -74,7 +81,7 @@ struct Sys {
 impl Sys {
     fn new() -> Sys {
         let (tx, rx) = channel::<u32>();
-        Sys { senders: vec![tx], receiver: Some(rx), waker: CountWaker::new(0), next_msg: 1, queue: VecDeque::new(), closed: false, parked: false, polls_pending: 0 }
+        Sys { senders: vec![tx], receiver: Some(rx), waker: CountWaker::new(0), waker_b: CountWaker::new(1), parked_b: false, next_msg: 1, queue: VecDeque::new(), closed: false, parked: false, polls_pending: 0 }
     }
 
     fn enabled(&self, max_senders: usize) -> Vec<Op> {
@@ -96,6 +103,7 @@ impl Sys {
         }
         if self.receiver.is_some() {
             v.push(Op::Poll);
+            v.push(Op::PollB);
             if s < max_senders {
                 v.push(Op::SenderFromReceiver);
             }
@@ -159,8 +167,8 @@ impl Sys {
                     self.parked = false;
                 }
             }
-            Op::Poll => {
-                let w = self.waker.waker();
+            Op::Poll | Op::PollB => {
+                let w = if op == Op::PollB { self.waker_b.waker() } else { self.waker.waker() };
                 let mut cx = Context::from_waker(&w);
                 let got = Pin::new(self.receiver.as_mut().unwrap()).poll_next(&mut cx);
                 let want: Poll<Option<u32>> = if let Some(m) = self.queue.pop_front() {
@@ -183,6 +191,7 @@ impl Sys {
                 }
                 if got.is_pending() {
                     self.parked = true;
+                    self.parked_b = op == Op::PollB;
                     self.polls_pending += 1;
                     // a wake delivered during the poll itself would be lost to the caller's bookkeeping
                 }
@@ -197,7 +206,12 @@ impl Sys {
                 self.parked = false;
             }
         }
-        let wakes = self.waker.take();
+        // the task to wake is the one that polled last: the waker of the latest Pending poll
+        let (wa, wb) = (self.waker.take(), self.waker_b.take());
+        let wakes = if self.parked_b { wb } else { wa };
+        if expect_wake && wakes == 0 && wa + wb > 0 {
+            return Some(("wake:stale-waker", format!("receiver had returned Pending to its latest poll and {:?} woke only the waker of an earlier poll", op)));
+        }
         if expect_wake && wakes == 0 {
             let sig = match op {
                 Op::Send(_) => "wake:missing-after-send",
@@ -286,7 +300,7 @@ fn dfs(seq: &mut Vec<Op>, depth: usize, max_senders: usize, st: &mut Stats) {
         if sys.parked && matches!(op, Op::Send(_) | Op::Close(_)) || (sys.parked && matches!(op, Op::DropS(_)) && sys.senders.len() == 1) {
             st.with_wake += 1;
         }
-        if matches!(op, Op::Poll) && sys.queue.is_empty() && (sys.closed || sys.senders.is_empty()) {
+        if matches!(op, Op::Poll | Op::PollB) && sys.queue.is_empty() && (sys.closed || sys.senders.is_empty()) {
             st.with_none += 1;
         }
         seq.push(op);
@@ -351,7 +365,7 @@ pub fn run(args: &Args) -> i32 {
     rep.set("traces_validated_against_impl", seqs);
     rep.set("evaluations", seqs);
     rep.set("distinct_nontrivial", with_wake + with_none);
-    rep.set("rule", format!("every op sequence of length <= {depth} over send(i), clone(i), drop_sender(i), close(i), poll, sender_from_receiver, drop_receiver with <= {max_senders} live senders (ops on dead handles pruned; exploration below a diverging op stops); each node re-executed from a fresh channel; return values compared with a VecDeque+flags reference after every op, and a receiver that returned Pending must have >= 1 wake after send / last-sender drop / close. distinct_nontrivial = distinct (sequence, next op) pairs where the reference expects a wake-up or an end-of-stream answer."));
+    rep.set("rule", format!("every op sequence of length <= {depth} over send(i), clone(i), drop_sender(i), close(i), poll, sender_from_receiver, drop_receiver with <= {max_senders} live senders (ops on dead handles pruned; exploration below a diverging op stops); each node re-executed from a fresh channel; return values compared with a VecDeque+flags reference after every op, and a receiver that returned Pending must have >= 1 wake, on the waker of its latest poll, after send / last-sender drop / close. distinct_nontrivial = distinct (sequence, next op) pairs where the reference expects a wake-up or an end-of-stream answer."));
     rep.set("exhaustive", true);
     rep.assume("extra (spurious) wake-ups are allowed; only missing ones are violations");
     rep.finish()
